@@ -43,7 +43,7 @@ class Gen:
                 if nm not in self.names:
                     self.names.append(nm)
                     continue
-            self.names.append(f"P{i}")
+            self.names.append(f"P{i}" + (".s" if rng.random() < 0.15 else ""))   # dots are legal in passage names
         self.sig = {}          # passage -> list of (param, default or None)
         for nm in self.names[1:]:
             if rng.random() < prof.params:
@@ -61,7 +61,7 @@ class Gen:
                 self.sig[nm] = ps
         self.hooks = []
         if prof.hooks > 0 and not prof.browser_subset and rng.random() < prof.hooks:
-            self.hooks = [f"H{i}" for i in range(rng.randint(1, 3))]
+            self.hooks = [f"H{i}" + (".e" if rng.random() < 0.2 else "") for i in range(rng.randint(1, 3))]
         self.joins = []
         if prof.join > 0 and not prof.browser_subset and rng.random() < prof.join:
             self.joins = [f"J{i}" for i in range(rng.randint(1, 2))]
@@ -333,7 +333,8 @@ class Gen:
             t = self.target(exclude=excl + tuple(self.joins))
             if r.random() < 0.3:
                 out.append("Before the jump.")
-            out.append(f"-> {t}{self.call_args(t, scope)}")
+            # a top-level line may be indented by the author (aligned under its paragraph): still a jump
+            out.append(r.choice(["", "", "", "  ", "    "]) + f"-> {t}{self.call_args(t, scope)}")
             if r.random() < 0.3:
                 out.append("After the jump (never shown).")
             self.tag("jump")
@@ -345,7 +346,10 @@ class Gen:
             out.append(self.choice_line(scope))
         if name == "Start":
             first = self.hooks[:1]
-            if len(self.hooks) > 1 and r.random() < 0.5:
+            if r.random() < 0.3:
+                first = []          # nothing hooked at the start: the event gets its first hook later in the game
+                self.tag("late-hooks")
+            elif len(self.hooks) > 1 and r.random() < 0.5:
                 first = [self.hooks[-1], self.hooks[0]]       # registration order is not alphabetical order
             for h in reversed(first):
                 out.insert(11, f"@hook turn_end {h}")
@@ -384,7 +388,11 @@ class Gen:
                 out.append(f"{mark} {cond}[Join {sec}.{k}{shown}] -> @join")
                 for _ in range(r.randint(0, 2)):
                     kk = r.random()
-                    if kk < 0.45:
+                    if kk < 0.12:
+                        # a text line of the block that begins like a list bullet is text, not a choice line
+                        out.append("    " + r.choice(["* a rope", "+ 1 gold", "* item {jn}", "+ and more"]))
+                        self.tag("bullet-line-in-join-block")
+                    elif kk < 0.45:
                         out.append("    " + r.choice(["You did it", "Chosen", "Fine"]) + f" {sec}.{k} {{jn}}")
                     elif kk < 0.75:
                         out.append("    ~ " + r.choice(["jn = jn + 1", self.stmt()]))
